@@ -9,9 +9,10 @@ opening game (`Spec.FPA.turn`) is built on. -/
 namespace Tak.Glue
 open Tak Tak.FPA
 
-theorem friendly_cases (fpa : Option (Variant × Rule)) (g : GameRec) (p : Pos) (o : CheckOracle) :
-  Tak.Glue.friendlyGetMove fpa g p o =
-    match fpaCheck fpa g p with
+theorem friendlyWith_cases (check : Option (Variant × Rule) → GameRec → Pos → R (Option (Variant × Rule) × Option Msg))
+    (fpa : Option (Variant × Rule)) (g : GameRec) (p : Pos) (o : CheckOracle) :
+  Tak.Glue.friendlyGetMoveWith check fpa g p o =
+    match check fpa g p with
     | .error e => .error e
     | .ok (f', some msg) => .ok (f', .resign msg)
     | .ok (f', none) =>
@@ -23,8 +24,8 @@ theorem friendly_cases (fpa : Option (Variant × Rule)) (g : GameRec) (p : Pos) 
         match waitUndo g o with
         | .error e => .error e
         | .ok w => .ok (f', .think (some Facts.maxThink) (some (if w then .undo else .minThink))) := by
-  unfold Tak.Glue.friendlyGetMove
-  cases h1 : fpaCheck fpa g p with
+  unfold Tak.Glue.friendlyGetMoveWith
+  cases h1 : check fpa g p with
   | error e => rfl
   | ok v =>
     obtain ⟨f', rej⟩ := v
@@ -46,6 +47,38 @@ theorem friendly_cases (fpa : Option (Variant × Rule)) (g : GameRec) (p : Pos) 
             | error e => rfl
             | ok w => rfl
 
+theorem friendly_cases (fpa : Option (Variant × Rule)) (g : GameRec) (p : Pos) (o : CheckOracle) :
+  Tak.Glue.friendlyGetMove fpa g p o =
+    match fpaCheck fpa g p with
+    | .error e => .error e
+    | .ok (f', some msg) => .ok (f', .resign msg)
+    | .ok (f', none) =>
+      if p.toMove ≠ g.color then .ok (f', .noMove) else
+      match fpaScript f' p with
+      | .error e => .error e
+      | .ok (some m) => .ok (f', .move m)
+      | .ok none =>
+        match waitUndo g o with
+        | .error e => .error e
+        | .ok w => .ok (f', .think (some Facts.maxThink) (some (if w then .undo else .minThink))) :=
+  friendlyWith_cases fpaCheck fpa g p o
+
+theorem friendly_cases_pinned (fpa : Option (Variant × Rule)) (g : GameRec) (p : Pos) (o : CheckOracle) :
+  Tak.Glue.friendlyGetMovePinned fpa g p o =
+    match fpaCheckPinned fpa g p with
+    | .error e => .error e
+    | .ok (f', some msg) => .ok (f', .resign msg)
+    | .ok (f', none) =>
+      if p.toMove ≠ g.color then .ok (f', .noMove) else
+      match fpaScript f' p with
+      | .error e => .error e
+      | .ok (some m) => .ok (f', .move m)
+      | .ok none =>
+        match waitUndo g o with
+        | .error e => .error e
+        | .ok w => .ok (f', .think (some Facts.maxThink) (some (if w then .undo else .minThink))) :=
+  friendlyWith_cases fpaCheckPinned fpa g p o
+
 /-- the first block in terms of `prevCheck` -/
 theorem fpaCheck_some (var : Variant) (r : Rule) (g : GameRec) (p : Pos) :
     fpaCheck (some (var, r)) g p =
@@ -60,6 +93,46 @@ theorem fpaCheck_some (var : Variant) (r : Rule) (g : GameRec) (p : Pos) :
           | .error e => .error e
           | .ok msg => .ok (some (var, r'), some msg) := by
   unfold fpaCheck prevCheck
+  by_cases hp : p.move > 0
+  · simp only [hp, if_true]
+    show (entryRule var r g >>= _) = _
+    cases h0 : entryRule var r g with
+    | error e => rfl
+    | ok r1 =>
+      show (prevOf g >>= _) = _
+      cases h1 : prevOf g with
+      | error e => rfl
+      | ok qm =>
+        obtain ⟨q, m⟩ := qm
+        dsimp only
+        show (legalMoveR var r1 (viewOfPos q) m >>= _) = _
+        cases h2 : legalMoveR var r1 (viewOfPos q) m with
+        | error e => rfl
+        | ok v =>
+          obtain ⟨r', ok⟩ := v
+          cases ok with
+          | true => rfl
+          | false =>
+            show (errMsg var q.move >>= _) = _
+            cases h3 : errMsg var q.move with
+            | error e => rfl
+            | ok msg => rfl
+  · simp only [hp, if_false]
+
+/-- the first block of the tree before `fixes/C07-fpa-record-notes.diff` in terms of `prevCheckPinned` -/
+theorem fpaCheckPinned_some (var : Variant) (r : Rule) (g : GameRec) (p : Pos) :
+    fpaCheckPinned (some (var, r)) g p =
+      match prevCheckPinned var r g p with
+      | .error e => .error e
+      | .ok (r', true) => .ok (some (var, r'), none)
+      | .ok (r', false) =>
+        match prevOf g with
+        | .error e => .error e
+        | .ok (q, _) =>
+          match errMsg var q.move with
+          | .error e => .error e
+          | .ok msg => .ok (some (var, r'), some msg) := by
+  unfold fpaCheckPinned prevCheckPinned
   by_cases hp : p.move > 0
   · simp only [hp, if_true]
     cases h1 : prevOf g with
@@ -82,6 +155,7 @@ theorem fpaCheck_some (var : Variant) (r : Rule) (g : GameRec) (p : Pos) :
   · simp only [hp, if_false]
 
 theorem fpaCheck_none (g : GameRec) (p : Pos) : fpaCheck none g p = .ok (none, none) := rfl
+theorem fpaCheckPinned_none (g : GameRec) (p : Pos) : fpaCheckPinned none g p = .ok (none, none) := rfl
 
 theorem doubleStackLegal_reject_ply {r r' : Rule} {v : View} {m : Move}
     (h : doubleStackLegal r v m = .ok (r', false)) : 2 ≤ v.ply ∧ v.ply ≤ 5 := by
@@ -179,16 +253,16 @@ theorem fpa_cases (var : Variant) (color : Color) (r : Rule) (view : View) (toMo
         | error e => rfl
         | ok sm => cases sm <;> rfl
 
-theorem glue_refines_fpa (var : Variant) (r : Rule) (g : GameRec) (p : Pos) (o : CheckOracle)
+theorem glue_refines_fpa_pinned (var : Variant) (r : Rule) (g : GameRec) (p : Pos) (o : CheckOracle)
     (f' : Option (Variant × Rule)) (a : Action)
-    (h : Tak.Glue.friendlyGetMove (some (var, r)) g p o = .ok (f', a)) :
+    (h : Tak.Glue.friendlyGetMovePinned (some (var, r)) g p o = .ok (f', a)) :
     ∃ r' rep, FPA.friendlyGetMove var g.color r (viewOfPos p) p.toMove (prevViews g) = .ok (r', rep) ∧
       f' = some (var, r') ∧ Matches rep a := by
-  rw [friendly_cases, fpaCheck_some] at h
+  rw [friendly_cases_pinned, fpaCheckPinned_some] at h
   rw [fpa_cases]
   have hply : (viewOfPos p).ply = p.move := rfl
   rw [hply]
-  unfold prevCheck at h
+  unfold prevCheckPinned at h
   unfold prevViews
   by_cases hp : p.move > 0
   · simp only [hp, if_true] at h ⊢
@@ -247,6 +321,74 @@ theorem glue_refines_fpa (var : Variant) (r : Rule) (g : GameRec) (p : Pos) (o :
           cases hw : waitUndo g o with
           | error e => rw [hw] at h; cases h
           | ok w => rw [hw] at h; cases h; exact ⟨r, .search, rfl, rfl, .search _ _⟩
+
+/-! ### the repaired `GetMove` is the old code run on the notes rebuilt from the record -/
+
+/-- the notes with which `Friendly.GetMove` (with `fixes/C07-fpa-record-notes.diff`) runs the code it had before: the older
+pairs of the record replayed from the notes on entry, and a fresh rule if the newest pair is the first move -/
+def entryNotes (var : Variant) (r : Rule) (g : GameRec) (p : Pos) : R Rule :=
+  if p.move > 0 then
+    match entryRule var r g with
+    | .error e => .error e
+    | .ok r1 =>
+      match prevOf g with
+      | .error e => .error e
+      | .ok (q, _) => .ok (if q.move = 0 then {} else r1)
+  else .ok r
+
+theorem prevCheck_eq (var : Variant) (r : Rule) (g : GameRec) (p : Pos) :
+    prevCheck var r g p = match entryNotes var r g p with
+      | .error e => .error e
+      | .ok r1 => prevCheckPinned var r1 g p := by
+  unfold prevCheck prevCheckPinned entryNotes
+  by_cases hp : p.move > 0
+  · simp only [hp, if_true]
+    cases entryRule var r g with
+    | error e => rfl
+    | ok r1 =>
+      cases prevOf g with
+      | error e => rfl
+      | ok qm => obtain ⟨q, m⟩ := qm; rfl
+  · simp only [hp, if_false]
+
+theorem fpaCheck_eq (var : Variant) (r : Rule) (g : GameRec) (p : Pos) :
+    fpaCheck (some (var, r)) g p = match entryNotes var r g p with
+      | .error e => .error e
+      | .ok r1 => fpaCheckPinned (some (var, r1)) g p := by
+  rw [fpaCheck_some, prevCheck_eq]
+  cases entryNotes var r g p with
+  | error e => rfl
+  | ok r1 => simp only [fpaCheckPinned_some]
+
+/-- **the repaired `Friendly.GetMove` is the code before the patch run on the notes rebuilt from the record** -/
+theorem friendly_eq_pinned (var : Variant) (r : Rule) (g : GameRec) (p : Pos) (o : CheckOracle) :
+    Tak.Glue.friendlyGetMove (some (var, r)) g p o = match entryNotes var r g p with
+      | .error e => .error e
+      | .ok r1 => Tak.Glue.friendlyGetMovePinned (some (var, r1)) g p o := by
+  rw [friendly_cases, fpaCheck_eq]
+  cases entryNotes var r g p with
+  | error e => rfl
+  | ok r1 => simp only [friendly_cases_pinned]
+
+theorem friendly_none_eq_pinned (g : GameRec) (p : Pos) (o : CheckOracle) :
+    Tak.Glue.friendlyGetMove none g p o = Tak.Glue.friendlyGetMovePinned none g p o := by
+  rw [friendly_cases, friendly_cases_pinned, fpaCheck_none, fpaCheckPinned_none]
+
+/-- the full model against the rule-driving part C20's opening game is built on: the call behaves as
+`FPA.friendlyGetMove` on the rebuilt notes -/
+theorem glue_refines_fpa (var : Variant) (r : Rule) (g : GameRec) (p : Pos) (o : CheckOracle)
+    (f' : Option (Variant × Rule)) (a : Action)
+    (h : Tak.Glue.friendlyGetMove (some (var, r)) g p o = .ok (f', a)) :
+    ∃ r1 r' rep, entryNotes var r g p = .ok r1 ∧
+      FPA.friendlyGetMove var g.color r1 (viewOfPos p) p.toMove (prevViews g) = .ok (r', rep) ∧
+      f' = some (var, r') ∧ Matches rep a := by
+  rw [friendly_eq_pinned] at h
+  cases hn : entryNotes var r g p with
+  | error e => rw [hn] at h; cases h
+  | ok r1 =>
+    rw [hn] at h
+    obtain ⟨r', rep, h1, h2, h3⟩ := glue_refines_fpa_pinned var r1 g p o f' a h
+    exact ⟨r1, r', rep, rfl, h1, h2, h3⟩
 
 /-! ### the empty board, seen by the rules at both levels (for the examples) -/
 
